@@ -7,6 +7,11 @@
 (*   replicate replicationScheme.ensureBlockIsReplicated                   *)
 (*                                          (pkg/replicate/scheme.go)      *)
 (*   delete    block.Delete      (pkg/block/block.go)                      *)
+(*   upload_prom  block.UploadPromBlock: the same procedure for a block    *)
+(*             without Thanos external labels (phase 2)                    *)
+(* Phase 2: deletion also starts from blocks that carry further marker     *)
+(* objects (no-compact-mark.json, no-downsample-mark.json) next to the     *)
+(* deletion mark.                                                          *)
 (* one action per bucket operation, with a crash (all local state lost,    *)
 (* bucket kept) possible before every operation and the procedure started  *)
 (* again afterwards, up to MaxCrashes times.  TLC checks the two C28       *)
@@ -24,16 +29,20 @@ Segs(n) == { Seg(i) : i \in 1..n }
 Index == [b |-> B, f |-> IndexF, s |-> 7]
 Meta == [b |-> B, f |-> MetaF, s |-> 99]
 Mark == [b |-> B, f |-> MarkF, s |-> 5]
+NoCompactMark == [b |-> B, f |-> "no-compact-mark.json", s |-> 4]
+NoDownsampleMark == [b |-> B, f |-> "no-downsample-mark.json", s |-> 3]
 Files(n) == Segs(n) \cup {Index}
 
-Procs == {"upload", "ship", "replicate", "delete"}
-Pres(p) == IF p = "delete" THEN {"complete", "complete+mark", "partial", "partial+mark"} ELSE {"empty"}
+Procs == {"upload", "upload_prom", "ship", "replicate", "delete"}
+Pres(p) == IF p = "delete" THEN {"complete", "complete+mark", "partial", "partial+mark", "complete+marks", "partial+marks"} ELSE {"empty"}
 PreBucket(pre, n) ==
     CASE pre = "empty"         -> {}
       [] pre = "complete"      -> Files(n) \cup {Meta}
       [] pre = "complete+mark" -> Files(n) \cup {Meta, Mark}
       [] pre = "partial"       -> Files(n)
       [] pre = "partial+mark"  -> Files(n) \cup {Mark}
+      [] pre = "complete+marks" -> Files(n) \cup {Meta, Mark, NoCompactMark, NoDownsampleMark}
+      [] pre = "partial+marks"  -> Files(n) \cup {Mark, NoCompactMark, NoDownsampleMark}
 
 VARIABLES nseg, proc, conc, pre,   \* the case: chosen in Init, never changed
           bkt,        \* the (target) bucket
@@ -44,7 +53,7 @@ VARIABLES nseg, proc, conc, pre,   \* the case: chosen in Init, never changed
 vars == <<nseg, proc, conc, pre, bkt, pc, todo, crashes, delMarked>>
 
 Init == /\ nseg \in 1..MaxSeg /\ proc \in Procs /\ conc \in BOOLEAN
-        /\ (conc => proc \in {"upload", "ship"})       \* only block.Upload has a concurrency option
+        /\ (conc => proc \in {"upload", "upload_prom", "ship"})       \* only block.Upload has a concurrency option
         /\ pre \in Pres(proc)
         /\ bkt = PreBucket(pre, nseg)
         /\ pc = "start" /\ todo = {} /\ crashes = 0 /\ delMarked = {}
@@ -54,9 +63,9 @@ Put(o) == bkt' = { x \in bkt : ~(x.b = o.b /\ x.f = o.f) } \cup {o}      \* uplo
 Keep == UNCHANGED <<nseg, proc, conc, pre, crashes>>
 
 Start == /\ pc = "start"
-         /\ pc' = CASE proc = "upload" -> "u_segs" [] proc = "ship" -> "s_exists"
+         /\ pc' = CASE proc \in {"upload", "upload_prom"} -> "u_segs" [] proc = "ship" -> "s_exists"
                     [] proc = "replicate" -> "r_cmp" [] proc = "delete" -> "d_meta"
-         /\ todo' = IF proc = "upload" THEN Segs(nseg) ELSE {}
+         /\ todo' = IF proc \in {"upload", "upload_prom"} THEN Segs(nseg) ELSE {}
          /\ UNCHANGED <<bkt, delMarked>> /\ Keep
 
 (* ---- block.upload: chunk segments (objstore.UploadDir, up to `concurrency` at a time), index, meta.json last ---- *)
@@ -134,9 +143,9 @@ CasesFile == IF "VERIF_CASES" \in DOMAIN IOEnv THEN IOEnv.VERIF_CASES ELSE "case
 MaxMut == MaxSeg + 5       \* >= mutating calls of any procedure (delete: meta, files, mark, 2 directory markers)
 CrashSeqs == UNION { [1..k -> 1..MaxMut] : k \in 0..CaseCrashes }
 CaseSet == { [proc |-> p, nseg |-> n, conc |-> c, pre |-> q, crashes |-> cr] :
-               p \in Procs, n \in 1..MaxSeg, c \in BOOLEAN, q \in {"empty", "complete", "complete+mark", "partial", "partial+mark"},
+               p \in Procs, n \in 1..MaxSeg, c \in BOOLEAN, q \in {"empty", "complete", "complete+mark", "partial", "partial+mark", "complete+marks", "partial+marks"},
                cr \in CrashSeqs }
-CaseOK(c) == c.pre \in Pres(c.proc) /\ (c.conc => c.proc \in {"upload", "ship"})
+CaseOK(c) == c.pre \in Pres(c.proc) /\ (c.conc => c.proc \in {"upload", "upload_prom", "ship"})
              /\ \A i \in DOMAIN c.crashes : c.crashes[i] <= c.nseg + 5
 ASSUME ndJsonSerialize(CasesFile, SetToSeq({ c \in CaseSet : CaseOK(c) }))
 =============================================================================
